@@ -75,6 +75,7 @@ ASSUME = {
   "query_ok: no user-chosen name `<-`; inside subqueries no `SELECT * FROM dual` and no pure-`<-` path projected as a value (a query that explicitly selects the back reference gets it; the Go code deletes the `<-` key of star projections in a post-processor)",
   "the multiset of rows is order-independent, but a float aggregate over a join can depend on the order in which rows are added; after the fix that makes join output follow the left table's order this no longer varies between runs (PARALLEL variants: batches are concatenated in key order)",
   "wrapper / pointer / thunk / cycle freedom is a typing fact of the model's value type; on the real code it is observed by the Go-type walk, the cycle check and the encoding/json round trip of every result",
+  "value tuples used as values are modelled (ETuple / RTuple / unwrapped); outside the model, not repaired: a tuple member that is a call with a qualifier (directly or as a CASE branch: the ASYNC slot / the SPIN marker stay members of the array on the real code), a tuple as an element of an IN list",
     ],
     "C04": [
   "wf_join: both sides are aliased rows {alias: row} with distinct aliases; ON is an AND/OR combination of comparisons between one x.col and one y.col; key values are scalars whose %v text determines them within a column (text_faithful: one scalar kind per key column) and zero_safe per comparison; hash theorems additionally need hash_faithful (vcompare = 0 <-> equal key text after -0 normalisation), discharged from FloatAxioms.eqb_spec/ltb_spec for numbers",
